@@ -24,8 +24,10 @@ def b_len(it, v):
         if v.card is None:
             v.card = z3.Int(it.path.fresh_name('card'))
             it.path.assume(v.card >= 0)
-            # card == 0 <=> empty is supplied through a Skolem witness
-            w = getattr(v, 'witness', None)
+            if v.forall is None:
+                raise Unsupported('len of a set with unknown universe')
+            # card == 0  <=>  no element of the universe is a member
+            it.path.assume((v.card == 0) == v.forall(lambda x: z3.Not(zbool(v.has(x)))))
         return SInt(v.card)
     if isinstance(v, SObj):
         if '__len__' in v.attrs:
@@ -356,6 +358,8 @@ def b_tuple(it, v=()):
 def b_set(it, v=()):
     if isinstance(v, SSet):
         return v
+    if isinstance(v, SObj) and '__as_set__' in v.attrs:
+        return v.attrs['__as_set__']
     if isinstance(v, SList):
         lst = v
 
@@ -363,8 +367,10 @@ def b_set(it, v=()):
             i = it.bound_var('set')
             return z3.Exists([i], z3.And(i >= 0, i < lst.n,
                                          zbool(values_equal(it, lst.get(i), x))))
-        s = SSet(has, None, lst.elt)
-        s.source_list = lst
+        def forall(pred):
+            q = it.bound_var('setq')
+            return z3.ForAll([q], z3.Implies(z3.And(q >= 0, q < lst.n), zbool(pred(lst.get(q)))))
+        s = SSet(has, None, lst.elt, forall)
         return s
     if v is None:
         raise PyExc('TypeError', "'NoneType' object is not iterable")
